@@ -4,13 +4,26 @@ from cohdl._compiler.frontend import generate_internal_representation
 from cohdl._compiler.backend import generate_vhdl
 
 
+def _reset_std_state():
+    # A design that is rejected inside of a 'with std.prefix(...)' block or
+    # inside of a SequentialContext leaves the prefix scope / the current context set.
+    # Discard this state so it does not affect the next compilation.
+    from ._prefix import _Prefix
+    from ._context import SequentialContext
+
+    _Prefix._prefix_scope.clear()
+    SequentialContext._exit_context()
+
+
 class VhdlCompiler:
     @classmethod
     def to_ir(cls, entity):
+        _reset_std_state()
         return generate_internal_representation(entity)
 
     @classmethod
     def to_vhdl_library(cls, top_entity, *, additional_reserved_names: set[str] = None):
+        _reset_std_state()
         ir = generate_internal_representation(top_entity)
         return generate_vhdl(ir, additional_reserved_names=additional_reserved_names)
 
